@@ -92,9 +92,9 @@ func protoTokens(toks []goat.VerifTok) (string, bool) {
 }
 
 type c05Case struct {
-	text  string
-	impl  string
-	proto string
+	text   string
+	impl   string
+	proto  string
 	gotree string
 }
 
